@@ -64,6 +64,7 @@ type liveSwitchReader struct {
 }
 
 func (sr *liveSwitchReader) Read(p []byte) (n int, err error) {
+	verifYield("sr.read.enter")
 	sr.Lock()
 	// Check if closeNotifier was created prior to this Read call & start it
 	if sr.pr != nil && sr.pipeCopyF != nil {
@@ -74,6 +75,7 @@ func (sr *liveSwitchReader) Read(p []byte) (n int, err error) {
 	}
 	r := sr.r
 	sr.Unlock()
+	verifYield("sr.read.unlocked")
 	return r.Read(p)
 }
 
@@ -119,6 +121,7 @@ func (c *conn) closeNotify() <-chan struct{} {
 					err = io.EOF
 				}
 				pw.CloseWithError(err)
+				verifYield("copier.notify")
 				c.notifyClientGone()
 			}
 			c.sr.Unlock()
@@ -208,8 +211,10 @@ func (c *conn) serve() {
 			}
 			break
 		}
+		verifYield("serve.read.ok")
 		// Handle messages in this goroutine.
 		serverHandler{c.server}.ServeDIAM(c.writer, m)
+		verifYield("serve.handler.done")
 	}
 }
 
